@@ -90,6 +90,9 @@ func (ci *ChunkInfo) updateNeighborChunkInfo(rootCid, cid boson.Address, overlay
 	bv, ok := ci.ct.presence[rc][over]
 
 	v := ci.getCidSort(rootCid, cid)
+	if v < 0 {
+		return nil
+	}
 	bv.Set(v)
 	bit := BitVector{B: bv.Bytes(), Len: bv.Len()}
 	if overlay.Equal(ci.addr) {
